@@ -19,6 +19,8 @@ From Concepts Require Import Base.Res Base.PyInt Base.BitSet Spec.FCA Spec.Conte
   Model.Matrices Model.ContextApi Model.Members Model.Lattice Model.LatticeApi
   Proofs.Matrices Proofs.ContextApi Proofs.Closure Proofs.LatticeBasics Proofs.LatticeFirst
   Proofs.BuildLattice Proofs.IterUnion Proofs.Assemble.
+From Concepts Require Model.Common.
+From Concepts Require Import Proofs.CommonEquiv.
 Import ListNotations.
 Open Scope Z_scope.
 
@@ -136,6 +138,35 @@ Proof. exact iterunion_terminates. Qed.
 
 (** * witness: rows {0,1}, {1,2}, {2,3}, {0,1,2}: 10 links; member 5 has dindex 1, 3 -> 3, 4 -> 4,
       1 -> 5, 2 -> 6, 0 -> 7 *)
+(** The kernel as regenerated from the source on every run ([Common.iterunion], tied by
+    Tie/Common.v) is the recursive model the theorems above speak of, and satisfies the
+    same specification directly. *)
+Theorem C09_translated_kernel_is_the_model : forall (sortkey : nat -> Z) (next : nat -> list nat) (nodes : list nat),
+  (forall c d, In c nodes -> In d nodes -> sortkey c = sortkey d -> c = d) ->
+  (forall c d, In c nodes -> In d (next c) -> In d nodes /\ sortkey c < sortkey d) ->
+  forall seeds, (forall c, In c seeds -> In c nodes) ->
+  forall fuel, Common.iterunion fuel sortkey next seeds = LatticeApi.iterunion fuel seeds sortkey next.
+Proof. exact common_iterunion_equiv. Qed.
+
+Theorem C09_translated_kernel_correct : forall (sortkey : nat -> Z) (next : nat -> list nat) (nodes seeds : list nat),
+  (forall c, In c nodes -> 0 <= sortkey c) ->
+  (forall c d, In c nodes -> In d nodes -> sortkey c = sortkey d -> c = d) ->
+  (forall c d, In c nodes -> In d (next c) -> In d nodes /\ sortkey c < sortkey d) ->
+  (forall c, In c seeds -> In c nodes) ->
+  forall fuel out, Common.iterunion fuel sortkey next seeds = Ok out ->
+  StronglySorted (fun a b => sortkey a < sortkey b) out /\ (forall c, In c out <-> IterUnion.reach next seeds c).
+Proof. exact common_iterunion_correct. Qed.
+
+Theorem C09_translated_kernel_upset : forall fuel dfuel ufuel c L i x,
+  wf_ctx c -> (Nat.max (nG c) (nM c) <= dfuel)%nat -> build_lattice fuel dfuel (relation_new c) = Ok L ->
+  concept_at L i x -> (1 + IterUnion.edges_up L <= ufuel)%nat ->
+  Common.iterunion ufuel (fun c0 => Z.of_nat (c_index (get_concept L c0))) (fun c0 => c_upper (get_concept L c0)) [i]
+  = Ok (filter (fun j => subsetb (c_extent x) (nth_extent (l_exts L) j)) (seq 0 (length (l_concepts L)))).
+Proof.
+  intros fuel dfuel ufuel c L i x Hwf Hd HB Hi Hf.
+  exact (common_upset_spec c L (build_lattice_ok fuel dfuel c L Hwf Hd HB) ufuel i x Hi Hf).
+Qed.
+
 Example C09_witness :
   let c := mkCtx 4 4 [3; 6; 12; 7] in
   wf_ctx c /\ (Nat.max (nG c) (nM c) <= 4)%nat /\
